@@ -168,3 +168,4 @@ def check(ctx, rep):
     _check_main(ctx, rep)
     keyedrules.order_bearing(ctx, rep, "C10.CONT")
     keyedrules.keyedset_eq(ctx, rep, "C10.CONTSET")
+    metarules.deepcopy_memo(ctx, rep, "C10.DC")
